@@ -5,7 +5,8 @@
 (*              rendered at (rw), all sizes handed to children (sizes)                         *)
 (*   "pile":    Pile.get_item_rows of a box-sized Pile (rows), rendered rows (rr), sizes       *)
 (*   "pad":     Padding.padding_values / Filler.filler_values: margins l, r and the extent     *)
-(*              the child got                                                                  *)
+(*              the child got; the configuration carries the NATURAL extent of a packed /     *)
+(*              fixed child (nat) and whether it shrinks to what it is offered (flex)         *)
 (*   "overlay": Overlay.calculate_padding_filler + top_w_size, one "pad" record per axis       *)
 (*   "grid":    GridFlow: per cell the width handed (cols), painted (pw) and the painted       *)
 (*              left top corner (xs, ys)                                                       *)
